@@ -716,6 +716,8 @@ class Runtime:
                     out = render_instant(t, how)
                 if out is not None and out.tzinfo is None and out.fold:
                     sim.probe("naive-modified-time-in-repeated-hour")
+                if how == "naive-gap" and out is not None and t is not None and out.replace(fold=0) != render_instant(t, "naive-local").replace(fold=0):
+                    sim.probe("naive-modified-time-in-skipped-hour")
             except BaseException as e:
                 if isinstance(e, CutError):
                     self.store_raised.setdefault(key, []).append(e)
